@@ -227,7 +227,6 @@ func checkC16(c CaseC16, info *Info) *Failure {
 		mxj.XmlCheckIsValid(true)
 		info.Class("validity check on")
 	}
-	bystanders()
 	info.Class("src:" + c.Src)
 	s := &intStream{v: c.Shuffle}
 	scratch := os.Getenv("VERIF_SCRATCH")
@@ -245,6 +244,7 @@ func checkC16(c CaseC16, info *Info) *Failure {
 		}
 		ms2 := mxj.MapSeq(rebuild(map[string]interface{}(ms), s).(map[string]interface{}))
 		x1, e1 := ms.Xml()
+		bystanders() // "however often they are encoded": whatever else the library did in between must not matter
 		x2, e2 := ms2.Xml()
 		x3, _ := ms2.Xml()
 		if e1 != nil || e2 != nil {
@@ -368,6 +368,7 @@ func checkC16(c CaseC16, info *Info) *Failure {
 	keep := &keeper{}
 	x1, e1 := mxj.Map(m).Xml()
 	keep.add("Map.Xml", x1)
+	bystanders() // "however often they are encoded": whatever else the library did in between must not matter
 	x2, e2 := mxj.Map(m2).Xml()
 	x3, e3 := mxj.Map(m3).Xml()
 	x4, _ := mxj.Map(m2).Xml()
